@@ -19,6 +19,12 @@ Section Exec.
   Definition ret (w : world) (z : Z) : world := emit w (TRet z).
   Definition retp (p : world * Z) : world := ret (fst p) (snd p).
 
+  (* M_MEM_LOCK around the state setters *)
+  Definition locked (m : modid) (f : world -> world * Z) (w : world) : world * Z :=
+    let w1 := lock_mod w m in
+    let '(w2, r) := f w1 in
+    (unlock_mod w2 m, r).
+
   Definition do_ctx_dereg (w : world) : world * Z :=
     ctx_deregister w (fun w m => fst (mod_deregister (dereg_fuel w) w m false)).
 
@@ -178,7 +184,10 @@ Section Exec.
         match the_ctx w with
         | None => ret w rEPIPE
         | Some c => match c_state c with
-                    | CLooping => emit (ret w 0) (TVal (Z.of_nat (c_running c)))
+                    | CLooping => emit (emit (ret w 0) (TVal (Z.of_nat (c_running c))))
+                                       (TVal (Z.of_nat (length (filter (fun p => match get_mod w (snd p) with
+                                                                                | Some mr => mstate_eqb (m_state mr) MRunning
+                                                                                | None => false end) (c_modules c)))))
                     | _ => ret w rEINVAL end
         end
     | CCtxSetTick ns =>
@@ -205,28 +214,28 @@ Section Exec.
         | Some e => ret w e
         | None => match consume_token w m with
                   | None => ret w rEAGAIN
-                  | Some w1 => retp (start_mod w1 m true) end
+                  | Some w1 => retp (locked m (fun w => start_mod w m true) w1) end
         end
     | CPause m =>
         match mod_assert_state w m [MRunning] with
         | Some e => ret w e
         | None => match consume_token w m with
                   | None => ret w rEAGAIN
-                  | Some w1 => retp (stop_mod w1 m false) end
+                  | Some w1 => retp (locked m (fun w => stop_mod w m false) w1) end
         end
     | CResume m =>
         match mod_assert_state w m [MPaused] with
         | Some e => ret w e
         | None => match consume_token w m with
                   | None => ret w rEAGAIN
-                  | Some w1 => retp (start_mod w1 m false) end
+                  | Some w1 => retp (locked m (fun w => start_mod w m false) w1) end
         end
     | CStop m =>
         match mod_assert_state w m [MRunning; MPaused] with
         | Some e => ret w e
         | None => match consume_token w m with
                   | None => ret w rEAGAIN
-                  | Some w1 => retp (stop_mod w1 m true) end
+                  | Some w1 => retp (locked m (fun w => stop_mod w m true) w1) end
         end
     | CState m =>
         if Nat.eqb (uref_count w m) 0 then ret w rEINVAL else
@@ -492,7 +501,28 @@ Section Exec.
                       (count_live w OData) (count_live w OCtx) (w_fds w))
     end.
 
-  Definition exec (cur : list evtrec) (w : world) (c : call) : world :=
+  Definition call_tag (c : call) : nat :=
+    match c with
+    | CCtxReg _ => 1 | CCtxDereg => 2 | CCtxFinalize => 3 | CCtxLoop => 4 | CCtxDispatch => 5 | CCtxQuit _ => 6
+    | CCtxLen => 7 | CCtxStats => 8 | CCtxSetTick _ => 9 | CReg _ => 10 | CDereg _ => 11 | CStart _ => 12
+    | CPause _ => 13 | CResume _ => 14 | CStop _ => 15 | CState _ => 16 | CRef _ => 17 | CUnref _ => 18
+    | CBecome _ _ => 19 | CUnbecome _ => 20 | CStash _ _ => 21 | CUnstash _ _ => 22 | CEvtRef _ => 23 | CEvtUnref _ => 24
+    | CBatchSize _ _ => 25 | CBatchTimeout _ _ => 26 | CTokenBucket _ _ _ => 27 | CSub _ _ _ _ _ => 28 | CUnsub _ _ => 29
+    | CTell _ _ _ _ => 30 | CPublish _ _ _ _ => 31 | CBroadcast _ _ _ => 32 | CPill _ _ => 33
+    | CSrcReg _ _ _ _ _ _ _ => 34 | CSrcDereg _ _ _ => 35 | CSrcLen _ _ => 36
+    | CFdWrite _ => 37 | CFire _ _ _ => 38 | CFireTick => 39 | CSetErrno _ => 40 | CLive => 41
+    end.
+
+  Definition call_arg (c : call) : N :=
+    match c with
+    | CTell _ _ d _ | CPublish _ _ d _ | CBroadcast _ d _ => d
+    | CStash m k => N.of_nat (100 * (m + 1) + (k + 1))
+    | _ => 0%N
+    end.
+
+  (* every scripted call announces itself in the trace (TMark), then runs *)
+  Definition exec (cur : list evtrec) (w0 : world) (c : call) : world :=
+    let w := emit w0 (TMark (call_tag c) (call_arg c)) in
     match call_handle c with
     | Some m => if Nat.eqb (uref_count w m) 0 then ret w rEINVAL else exec_call cur w c
     | None => exec_call cur w c
@@ -515,6 +545,7 @@ Section Exec.
         match l with
         | [] => w
         | CCtxLoop :: r =>
+            let w := emit w (TMark 4 0) in
             match the_ctx w with
             | Some c =>
                 match c_state c with
